@@ -159,41 +159,14 @@ Section Tree.
     intros ts Hts. apply (guards_levels s n Hu Hf). apply in_removelast; exact Hts.
   Qed.
 
-  (* conflict reporting: under the guards the non-quiet path chooses what the quiet path chooses *)
-  Lemma level_nq_guard : forall ts n k,
-    level_uniform ts = true -> forallb runtime_uniform_template ts = true ->
-    level_same_text node pmatch ts n = true ->
-    nq_guard node pmatch n (locate (build_tables ts) k).
-  Proof.
-    intros ts n k Hu Hrt Ht. unfold level_uniform, level_same_text in *. rewrite forallb_forall in Hu, Hrt, Ht.
-    assert (Hfacts : forall e, In e (locate (build_tables ts) k) -> In (e_tmpl e) ts /\ In (e_alt e) (t_alts (e_tmpl e))).
-    { intros e He. apply locate_contents in He. destruct He as [He _]. unfold entries in He.
-      destruct (in_pairs_of_entry ts 0%nat 0%nat 0%N e He) as [r Hr].
-      apply (pairs_facts node pmatch) in Hr. tauto. }
-    split.
-    - intros e He. destruct (Hfacts e He) as [H1 H2]. split; [apply Hu; exact H1|]. split; [apply Hrt; exact H1 | exact H2].
-    - intros e1 e2 H1 H2 Htx Hpr.
-      destruct (Hfacts e1 H1) as [A1 _]. destruct (Hfacts e2 H2) as [A2 _].
-      specialize (Ht _ A1). rewrite forallb_forall in Ht. specialize (Ht _ A2).
-      rewrite Htx, Hpr, N.eqb_refl in Ht.
-      assert (Hz : opt_z_eqb (t_prio (e_tmpl e2)) (t_prio (e_tmpl e2)) = true).
-      { destruct (t_prio (e_tmpl e2)); cbn; [apply Z.eqb_refl | reflexivity]. }
-      rewrite Hz in Ht. cbn in Ht. apply eqb_prop in Ht. exact Ht.
-  Qed.
-
+  (* conflict reporting never changes the choice *)
   Lemma quiet_eq_nonquiet_lemma : forall s mode n only,
-    uniform_union_priorities s = true -> runtime_scores_agree s = true ->
-    same_text_same_match node pmatch s n = true ->
     find_template false (compile s) mode n only = find_template true (compile s) mode n only.
   Proof.
-    intros s mode n only Hu Hr Ht.
+    intros s mode n only.
     assert (Hl : Forall (fun ts => level_find_q false ts mode n = level_find_q true ts mode n) (postorder s)).
     { rewrite Forall_forall. intros ts Hts. unfold level_find_q.
-      apply nq_eq_quiet_list; [apply locate_sorted|].
-      apply level_nq_guard.
-      - exact (forallb_concat _ _ Hu ts Hts).
-      - exact (forallb_concat _ _ Hr ts Hts).
-      - unfold same_text_same_match in Ht. rewrite forallb_forall in Ht. apply Ht; exact Hts. }
+      apply nq_eq_quiet_list. apply locate_sorted. }
     destruct only.
     - rewrite (proj2 (find_template_levels_q false mode n s)), (proj2 (find_template_levels_q true mode n s)).
       apply first_some_ext. apply Forall_rev. rewrite Forall_forall in *.
